@@ -22,6 +22,7 @@ Definition q_w (q : Q4) : Part R := snd q.
 Definition ddlifts (qs : list Q4) : list (Part DD) := map (fun q => ddlift (q_p q) (q_a q) (q_b q) (q_w q)) qs.
 Definition QQ0 : Q4 := (Z0P RNum, Z0P RNum, Z0P RNum, Z0P RNum).
 Definition GDD (G : R) : DD := dd G 0 0 0.
+Definition softDD (soft : R) : DD := dd (soft * soft) 0 0 0.
 
 Lemma nth_ddlifts qs i :
   nth_d (Z0P DDR) (ddlifts qs) i =
@@ -37,16 +38,16 @@ Proof.
   change (Z0P RNum) with (q_w QQ0). rewrite nth_d_map. reflexivity.
 Qed.
 
-Lemma var2_terms_dual (G : R) (pi pj wi wj ai aj bi bj : Part R) :
-  sep2 pi pj <> 0 ->
-  let '(tiD, tjD) := newt_terms DDR (GDD G) (ddlift pi ai bi wi) (ddlift pj aj bj wj) in
-  let '(ti, tj) := var2_terms RNum G pi pj wi wj ai aj bi bj in
+Lemma var2_terms_dual (G soft : R) (pi pj wi wj ai aj bi bj : Part R) :
+  sep2 soft pi pj <> 0 ->
+  let '(tiD, tjD) := newt_terms DDR (softDD soft) (GDD G) (ddlift pi ai bi wi) (ddlift pj aj bj wj) in
+  let '(ti, tj) := var2_terms RNum (soft * soft) G pi pj wi wj ai aj bi bj in
   mix3 tiD = ti /\ mix3 tjD = (let '(a, b, c) := tj in (- a, - b, - c)).
 Proof.
   intros Hne.
   destruct pi as [mi xi yi zi], pj as [mj xj yj zj], wi as [wmi wxi wyi wzi], wj as [wmj wxj wyj wzj],
            ai as [ami axi ayi azi], aj as [amj axj ayj azj], bi as [bmi bxi byi bzi], bj as [bmj bxj byj bzj].
-  remember (sep2 (mkP mi xi yi zi) (mkP mj xj yj zj)) as r2 eqn:Er2.
+  remember (sep2 soft (mkP mi xi yi zi) (mkP mj xj yj zj)) as r2 eqn:Er2.
   assert (Hr2 : 0 <= r2) by (subst r2; apply sep2_nonneg).
   cbn. unfold sep2 in Er2. cbn in Er2. rewrite <- Er2.
   remember (sqrt r2) as s eqn:Es.
@@ -65,26 +66,26 @@ Proof.
   rewrite map_upd. reflexivity.
 Qed.
 
-Lemma newt_pair_dual (G : R) qs i j (accD : list DD3) :
-  sep2 (nth_d (Z0P RNum) (map q_p qs) i) (nth_d (Z0P RNum) (map q_p qs) j) <> 0 ->
-  map mix3 (newt_pair DDR (GDD G) (ddlifts qs) i j accD)
-  = var2_pair RNum G (map q_p qs) (map q_w qs) (map q_a qs) (map q_b qs) i j (map mix3 accD).
+Lemma newt_pair_dual (G soft : R) qs i j (accD : list DD3) :
+  sep2 soft (nth_d (Z0P RNum) (map q_p qs) i) (nth_d (Z0P RNum) (map q_p qs) j) <> 0 ->
+  map mix3 (newt_pair DDR (softDD soft) (GDD G) (ddlifts qs) i j accD)
+  = var2_pair RNum (soft * soft) G (map q_p qs) (map q_w qs) (map q_a qs) (map q_b qs) i j (map mix3 accD).
 Proof.
   intros Hne. unfold newt_pair, var2_pair. rewrite !nth_ddlifts.
-  pose proof (var2_terms_dual G _ _ (nth_d (Z0P RNum) (map q_w qs) i) (nth_d (Z0P RNum) (map q_w qs) j)
+  pose proof (var2_terms_dual G soft _ _ (nth_d (Z0P RNum) (map q_w qs) i) (nth_d (Z0P RNum) (map q_w qs) j)
                 (nth_d (Z0P RNum) (map q_a qs) i) (nth_d (Z0P RNum) (map q_a qs) j)
                 (nth_d (Z0P RNum) (map q_b qs) i) (nth_d (Z0P RNum) (map q_b qs) j) Hne) as H.
   revert H.
-  destruct (newt_terms DDR _ _ _) as [tiD tjD].
-  destruct (var2_terms RNum _ _ _ _ _ _ _ _ _) as [ti tj]. intros [Hi Hj].
+  destruct (newt_terms DDR _ _ _ _) as [tiD tjD].
+  destruct (var2_terms RNum _ _ _ _ _ _ _ _ _ _) as [ti tj]. intros [Hi Hj].
   rewrite !add3_mix, Hi, Hj. apply add3_neg.
 Qed.
 
 (* second order, all N: particles p + a e1 + b e2 + w e1e2, all pairs at distinct positions *)
-Theorem var2_is_mixed_dual_part (G : R) (qs : list Q4) :
-  distinct (map q_p qs) ->
-  map mix3 (grav_allpairs DDR (GDD G) (ddlifts qs))
-  = grav_var2 RNum G (map q_p qs) (map q_w qs) (map q_a qs) (map q_b qs).
+Theorem var2_is_mixed_dual_part (G soft : R) (qs : list Q4) :
+  distinct soft (map q_p qs) ->
+  map mix3 (grav_allpairs DDR (softDD soft) (GDD G) (ddlifts qs))
+  = grav_var2 RNum (soft * soft) G (map q_p qs) (map q_w qs) (map q_a qs) (map q_b qs).
 Proof.
   intros Hd. unfold grav_allpairs, grav_var2.
   assert (Hlen : length (ddlifts qs) = length (map q_p qs)) by (unfold ddlifts; now rewrite !map_length).
@@ -93,7 +94,7 @@ Proof.
   - intros i aD a Hi E. apply (for_range_rel (fun (aD : list DD3) a => map mix3 aD = a)); [|exact E].
     intros j bD b Hj E2. rewrite <- E2. apply newt_pair_dual.
     (* distinct is stated for j < i; the pair here is (i, j) with i < j: sep2 is symmetric *)
-    assert (Hsym : forall p q, sep2 p q = sep2 q p) by (intros; unfold sep2; ring).
+    assert (Hsym : forall p q, sep2 soft p q = sep2 soft q p) by (intros; unfold sep2; ring).
     rewrite Hsym. apply Hd. lia.
   - rewrite map_repeat. reflexivity.
 Qed.
@@ -109,8 +110,8 @@ Proof.
   destruct (nth_d (t0 DDR) accD k) as [[ax ay] az]. destruct t as [[tx ty] tz].
   rewrite map_upd. reflexivity.
 Qed.
-Theorem dd_value_part_is_newton (G : R) (qs : list Q4) :
-  map val3 (grav_allpairs DDR (GDD G) (ddlifts qs)) = grav_allpairs RNum G (map q_p qs).
+Theorem dd_value_part_is_newton (G soft : R) (qs : list Q4) :
+  map val3 (grav_allpairs DDR (softDD soft) (GDD G) (ddlifts qs)) = grav_allpairs RNum (soft * soft) G (map q_p qs).
 Proof.
   unfold grav_allpairs.
   assert (Hlen : length (ddlifts qs) = length (map q_p qs)) by (unfold ddlifts; now rewrite !map_length).
@@ -133,17 +134,17 @@ Proof.
   now rewrite nth_d_map.
 Qed.
 
-Lemma var2_tp_step_dual (G : R) ps (x y z ax ay az bx by_ bz wx wy wz : R) i j (aD : DD3) :
+Lemma var2_tp_step_dual (G soft : R) ps (x y z ax ay az bx by_ bz wx wy wz : R) i j (aD : DD3) :
   (x, y, z) = (px (nth_d (Z0P RNum) ps i), py (nth_d (Z0P RNum) ps i), pz (nth_d (Z0P RNum) ps i)) ->
-  sep2 (nth_d (Z0P RNum) ps i) (nth_d (Z0P RNum) ps j) <> 0 ->
-  mix3 (acc_on_step DDR (GDD G) (cclifts ps) (dd x ax bx wx, dd y ay by_ wy, dd z az bz wz) j aD)
-  = var2_tp_step RNum G ps (wx, wy, wz) (ax, ay, az) (bx, by_, bz) i j (mix3 aD).
+  sep2 soft (nth_d (Z0P RNum) ps i) (nth_d (Z0P RNum) ps j) <> 0 ->
+  mix3 (acc_on_step DDR (softDD soft) (GDD G) (cclifts ps) (dd x ax bx wx, dd y ay by_ wy, dd z az bz wz) j aD)
+  = var2_tp_step RNum (soft * soft) G ps (wx, wy, wz) (ax, ay, az) (bx, by_, bz) i j (mix3 aD).
 Proof.
   intros Exyz Hne. unfold acc_on_step, var2_tp_step. rewrite nth_cclifts.
   destruct (nth_d (Z0P RNum) ps i) as [mi xi yi zi]. destruct (nth_d (Z0P RNum) ps j) as [mj xj yj zj].
   cbn in Exyz. injection Exyz as -> -> ->.
   destruct aD as [[[[a1 a2] [a3 a4]] [[b1 b2] [b3 b4]]] [[c1 c2] [c3 c4]]].
-  remember (sep2 (mkP mi xi yi zi) (mkP mj xj yj zj)) as r2 eqn:Er2.
+  remember (sep2 soft (mkP mi xi yi zi) (mkP mj xj yj zj)) as r2 eqn:Er2.
   assert (Hr2 : 0 <= r2) by (subst r2; apply sep2_nonneg).
   cbn. unfold sep2 in Er2. cbn in Er2. rewrite <- Er2.
   remember (sqrt r2) as s eqn:Es.
@@ -154,12 +155,12 @@ Proof.
   f_equal; [f_equal|]; field; exact Hs0.
 Qed.
 
-Theorem var2_testparticle_is_mixed_dual_part (G : R) (ps : list (Part R)) (ax ay az bx by_ bz wx wy wz : R) (i : nat) :
+Theorem var2_testparticle_is_mixed_dual_part (G soft : R) (ps : list (Part R)) (ax ay az bx by_ bz wx wy wz : R) (i : nat) :
   (forall j, (j < length ps)%nat -> j <> i ->
-             sep2 (nth_d (Z0P RNum) ps i) (nth_d (Z0P RNum) ps j) <> 0) ->
+             sep2 soft (nth_d (Z0P RNum) ps i) (nth_d (Z0P RNum) ps j) <> 0) ->
   let pi := nth_d (Z0P RNum) ps i in
-  mix3 (acc_on DDR (GDD G) 0 (cclifts ps) (dd (px pi) ax bx wx, dd (py pi) ay by_ wy, dd (pz pi) az bz wz) i)
-  = grav_var2_tp RNum G ps (wx, wy, wz) (ax, ay, az) (bx, by_, bz) i.
+  mix3 (acc_on DDR (softDD soft) (GDD G) 0 (cclifts ps) (dd (px pi) ax bx wx, dd (py pi) ay by_ wy, dd (pz pi) az bz wz) i)
+  = grav_var2_tp RNum (soft * soft) G ps (wx, wy, wz) (ax, ay, az) (bx, by_, bz) i.
 Proof.
   intros Hd pi. unfold acc_on, grav_var2_tp.
   replace (length (cclifts ps)) with (length ps) by (unfold cclifts; now rewrite map_length).
